@@ -51,6 +51,31 @@ class ConcreteProvider:
 
         return float(self._get(name, gen))
 
+    def fp(self, name, lo=None, hi=None):
+        lo_, hi_ = (-1e3 if lo is None else lo), (1e3 if hi is None else hi)
+        return float(self._get(name, lambda: self.rng.uniform(lo_, hi_)))
+
+    def fp_mode(self, g):
+        import contextlib
+
+        return contextlib.nullcontext()
+
+    def check_bits(self, name, a, b):
+        import struct
+
+        name = self._uniq(name)
+        self.n_checks += 1
+        if self.assume_failed:
+            return
+        la, lb = np.array(a, dtype=float).reshape(-1), np.array(b, dtype=float).reshape(-1)
+        if la.shape != lb.shape:
+            self.failures.append({"name": name, "msg": "shape %s vs %s" % (la.shape, lb.shape)})
+            return
+        for i, (x, y) in enumerate(zip(la, lb)):
+            if struct.pack("<d", x) != struct.pack("<d", y):
+                self.failures.append({"name": "%s[%d]" % (name, i), "msg": "bits differ: %r vs %r" % (float(x), float(y))})
+                return
+
     def sampled_real(self, name, sampler):
         """a real whose concrete value is drawn by ``sampler(rng)`` (the harness adds the matching assumptions itself)"""
         return float(self._get(name, lambda: sampler(self.rng)))
